@@ -216,8 +216,19 @@ func (g *gen) item(depth int, strict bool) string {
 	case k < 4:
 		n := g.r.Intn(4)
 		sb.WriteString(g.caseMix("L") + g.sizeHint(n) + g.wsc())
+		// closed sibling lists (empty, [0], one leaf) before, between and after the other children:
+		// a nesting counter must come back down exactly once per closed list
+		sibs := func() {
+			if g.r.Intn(2) == 0 {
+				for j := g.r.Intn(4); j > 0; j-- {
+					sb.WriteString(g.pick("<L>", "<L[0]>", "<L <A \"x\">>", "<l\n>", "<L [0] >", "<L <L>>") + g.wsc())
+				}
+			}
+		}
+		sibs()
 		for i := 0; i < n; i++ {
 			sb.WriteString(g.item(depth-1, strict) + g.wsc())
+			sibs()
 		}
 	case k < 8:
 		s := asciiPool[g.r.Intn(len(asciiPool))]
@@ -369,7 +380,9 @@ func (g *gen) mutate(s string) (string, string) {
 		if g.r.Intn(4) == 0 {
 			closers = g.r.Intn(d + 1)
 		}
-		return s[:i] + strings.Repeat("<L ", d) + s[i:j+1] + strings.Repeat(">", closers) + s[j+1:], "nest"
+		// half of the time every wrapping level first holds a closed sibling list
+		opener := g.pick("<L ", "<L ", "<L <L> ", "<L <L[0]> ", "<L <L <A \"x\">> ")
+		return s[:i] + strings.Repeat(opener, d) + s[i:j+1] + strings.Repeat(">", closers) + s[j+1:], "nest"
 	case 9: // blow up a size hint
 		i := strings.IndexByte(s, '[')
 		h := g.pick("[2147483647]", "[99999]", "[65536]", "[100000]", "[4294967295]", "[2147483648]", "[0]", "[1]", "[00000001]", "[30000..70000]")
@@ -426,6 +439,7 @@ func genCases(c *vh.Ctx) []kase {
 			}
 		}
 	}
+	cases = append(cases, familyCases()...)
 	for i := 0; i < c.N; i++ {
 		var s, class string
 		strictText := g.r.Intn(2) == 0
